@@ -9,10 +9,12 @@ from ..values import describe, to_json, to_py
 from . import _codec
 
 
-def worker(ctx, spec):
+def worker(ctx, spec, flags=(), env_extra=None, cwd=None):
     spec = dict(spec, classes=ctx["c19_classes"])
-    p = subprocess.run([common.PY, str(common.VERIF / "harness" / "c19_worker.py"), str(ctx["build"])],
-                       input=json.dumps(spec), capture_output=True, text=True, env=common.child_env(), timeout=900)
+    env = common.child_env()
+    env.update(env_extra or {})
+    p = subprocess.run([common.PY, *flags, str(common.VERIF / "harness" / "c19_worker.py"), str(ctx["build"])],
+                       input=json.dumps(spec), capture_output=True, text=True, env=env, timeout=900, cwd=cwd)
     if p.returncode != 0:
         raise RuntimeError(p.stderr[-2000:])
     return json.loads(p.stdout)
@@ -241,6 +243,43 @@ def run(ctx):
                                     "class": _codec.cls_name(classes, i), "got": o[:2]})
                 elif not (o[0] == "ok" and o[1] == to_json(vals[i][0])):
                     bad.append({"what": "concurrent decoding differs", "class": _codec.cls_name(classes, i), "got": str(o)[:200]})
+    # (iii-b) the interpreter's environment: the same operations (valid, truncated and corrupted messages) under
+    # interpreter flags and settings that change nothing a correct program depends on
+    env_ops = []
+    for i in pool[:12]:
+        for k in range(2):
+            if ref[(i, k)][0] != "ok":
+                continue
+            data = ref[(i, k)][1]
+            env_ops.append(["w", i, to_json(vals[i][k])])
+            env_ops.append(["r", i, data])
+            env_ops.append(["r", i, data[: max(0, len(data) - 2 - (len(data) % 4))]])
+            raw = bytearray(bytes.fromhex(data))
+            for pos in (0, len(raw) // 2, len(raw) - 1):
+                if raw:
+                    b2 = bytearray(raw); b2[pos] ^= 0xFF
+                    env_ops.append(["r", i, bytes(b2).hex()])
+        if bad_vals[i] is not None:
+            env_ops.append(["w", i, to_json(bad_vals[i])])
+    ENVS = [("python -O", ["-O"], {}, None), ("python -OO", ["-OO"], {}, None), ("python -X dev", ["-X", "dev"], {}, None),
+            ("LC_ALL=C PYTHONUTF8=0", [], {"LC_ALL": "C", "LANG": "C", "PYTHONUTF8": "0"}, None),
+            ("PYTHONHASHSEED=12345", [], {"PYTHONHASHSEED": "12345"}, None), ("cwd=/", [], {}, "/"),
+            ("python -I -S is not used; PYTHONOPTIMIZE=2", [], {"PYTHONOPTIMIZE": "2"}, None)]
+    base_out = worker(ctx, {"ops": env_ops})
+    n_env = 0
+    for label, flags, extra, cwd in (ENVS if not quick else ENVS[:5]):
+        try:
+            out = worker(ctx, {"ops": env_ops}, flags=flags, env_extra=extra, cwd=cwd)
+        except Exception as e:  # noqa
+            bad.append({"what": f"the worker does not run under {label}", "detail": str(e)[-300:]})
+            continue
+        n_env += len(env_ops)
+        for op, a, b in zip(env_ops, base_out, out):
+            if a != b:
+                bad.append({"what": f"the result differs under {label}", "class": _codec.cls_name(classes, op[1]), "operation": op[0],
+                            "default_environment": str(a)[:200], "this_environment": str(b)[:200]})
+                break
+    n_ops += n_env
     # (iv) deterministic line-level schedules: two threads, cold caches, at most two preemptions at
     # chosen traced lines of kio/serial/*.py (both build and use writer+reader of classes with
     # tagged fields; same class and different classes)
